@@ -328,6 +328,13 @@ def execute(plan, out, log):
                     log.ev("bad_query", k, op["kind"], type(e).__name__)
                     out["probes"]["nonfinite_query_rejected"] += 1
         elif op["op"] == "rate":
+            rate_first = rig.body1 and k % 2 == 0
+            if rate_first:
+                # the rate is asked for at a configuration at which the angle has not been asked for: both bodies are
+                # moved together (no relative rotation) without an angle query in between
+                pw = np.array(op["u1"][:4], dtype=float) + np.array([1.0, 0.0, 0.0, 0.0])
+                Rw, tw = rot.quat_to_mat(pw / np.linalg.norm(pw)), np.array(op["u2"][:3], dtype=float)
+                out["probes"]["rate_before_angle"] += 1
             q, A1, A2, e_c = rig.config(phi, Rw, tw, scale, t)
             u2 = np.array(op["u2"])
             if rig.body1:
@@ -347,6 +354,8 @@ def execute(plan, out, log):
             if abs(got - want) > 1e-9 * (1 + abs(want)):
                 bad("rate_mismatch", plan["sub1"], f"op {k}: l_dot={got!r}, relative angular velocity about the axis={want!r}")
             out["probes"]["rate_query"] += 1
+            if rate_first and not out["violations"]:
+                query(k)
         elif op["op"] == "wiggle":
             if rig.body1:
                 Rw, tw = rot.quat_to_mat(op["p"]), np.array(op["t"])
